@@ -60,7 +60,7 @@ def vocab_from_spec(spec):
         srcs = par_sources.get(p["name"], [])
         w = bool(srcs) and not p.get("timed") and all(kinds[s] == "ord" for s in srcs) and p.get("fmt") in ("rate", "probability", "number", "duration")
         add(cls, p["name"], w)
-    nested = [x for x in spec.get("characs", []) if not x.get("den")]
+    nested = sorted([x for x in spec.get("characs", []) if not x.get("den")], key=lambda x: -len(x["inc"]))  # largest first (sheet order is free)
     years = sorted({t for bypop in spec["data"]["q"].values() for d in bypop.values() for t in d.get("t", [])} | set(spec["data"]["years"]))
     return {
         "pops": list(spec["pops"]),
